@@ -222,7 +222,8 @@ fn run(ctx: &Ctx) {
         "(1) differential over thread counts {2,3,4,8,12,16} x repetitions on generated 45..125-bit composites (Qs, Mpqs, Siqs, \
          Ecm, Auto; every third sieve case forces double large primes) against the single-threaded run; (2) the same under seeded \
          schedule perturbation (yield / spin / sleep at every relation-store lock acquisition and completion check, through the \
-         yield_point hook); (3) the add calls recorded from real sieves replayed into a fresh relation store in generated orders \
+         yield_point hook) and under four directed delay-only schedules of the completion bookkeeping (window, freeze, ambush, \
+         stale publication; a dedicated batch of 64..100-bit semiprimes with 8/12/16 workers and the 165..190-bit inputs); (3) the add calls recorded from real sieves replayed into a fresh relation store in generated orders \
          (reversals, block swaps, round-robin interleavings of k virtual threads, duplicated relations), invariants after every \
          step and final_step at the end. Non-trivial = a multi-threaded run (1,2) or a genuine reordering (3); distinct by \
          (n, selector, threads, prefs) resp. (n, permutation).",
